@@ -113,6 +113,9 @@ def curated():
     a(make('fx_pod_al', [P('p', 'u64', 8), P('f', 'pod12'), P('p', 'f64', 8)], 'none'))
     a(make('fx_pod5_al', [P('f', 'pod5', 4), P('p', 'u32', 4), P('f', 'pod12', 8), P('p', 'u16', 2)], 'ae'))
     a(make('fx_trk_al', [P('f', 'trk12', 8), P('p', 'u32', 8), P('f', 'trk9'), P('p', 'u64', 4)], 'noned'))
+    # byte-typed (memcmp-ordered) lists with padding INSIDE the element: an over-aligned parameter that is not the first
+    a(make('fx_bytes_al', [P('p', 'u8'), P('f', 'u8', 4)], 'none'))
+    a(make('pl_bytes_al', [P('p', 'u8'), P('p', 'u8', 2), P('p', 'by')], 'ae'))
     a(make('fx_ptr', [P('p', 'ptr'), P('f', 'ptr')], 'none'))
     a(make('fx_pad_u8', [P('p', 'u8'), P('f', 'u16', 2), P('p', 'u8', 4)], 'all'))
     # trailing-alignment propagation across a FixedSize, an unaligned plain parameter and an aligned one
